@@ -41,6 +41,7 @@ class Loop:
     targets: ast.expr
     body: list  # segments
     node: ast.AST | None = None
+    filters: tuple = ()  # tests under which an element of the loop is skipped (continue / break before its contribution)
 
 
 Seg = Any
@@ -369,9 +370,14 @@ def contributions(func: Func) -> list[Sink]:
                     env[k] = []
                 saved_alias = dict(alias)
                 walk(st.body, False)
+                # an element is skipped (or the loop left) under a condition: what follows in the body is contributed conditionally
+                filt = tuple(norm(x.test)[:80] for x in st.body if isinstance(x, ast.If)
+                             and any(isinstance(y, (ast.Continue, ast.Break)) for y in walk_local(x))
+                             and not any(isinstance(y, ast.AugAssign) or (isinstance(y, ast.Call) and isinstance(y.func, ast.Attribute) and y.func.attr in ("update", "append"))
+                                         for y in walk_local(x)))
                 for k in touched:
                     body = env[k]
-                    env[k] = saved[k] + [Loop(subst(st.iter, saved_alias), st.target, body, st)]
+                    env[k] = saved[k] + [Loop(subst(st.iter, saved_alias), st.target, body, st, filt)]
                 alias.clear()
                 alias.update(saved_alias)
                 continue
